@@ -376,6 +376,7 @@ func c06run(sc *sim.Scenario, env *sim.Env, st *sim.Stats, observe bool) c06resu
 	}
 	var kept []keptErr
 	var seg cloneSeg
+	seg.Nested = sc.Seed&8 != 0
 	var mSave *asmModel // the model before the block that is going through a clone
 	for i, op := range sc.Ops {
 		if st != nil {
@@ -451,6 +452,12 @@ func c06run(sc *sim.Scenario, env *sim.Env, st *sim.Stats, observe bool) c06resu
 			}
 			if panicked {
 				return viol(i, "finalize_panic", "Finalize panicked: %s", sim.PanicString(pv))
+			}
+			if !seg.active() && post.Len <= len(target) && string(target[:post.Len]) != string(post.Bytes) {
+				// the program lives in the buffer the caller handed to NewEmitter (a ROM image,
+				// say): that is where the operands have to end up, not only in what Bytes() returns
+				j := firstDiff(target[:post.Len], post.Bytes)
+				return viol(i, "target_buffer_stale", "after Finalize the caller's target buffer differs from Bytes() at offset %d: target %02x, Bytes() %02x", j, target[j], post.Bytes[j])
 			}
 			if (err == nil) != wantOK {
 				return viol(i, "finalize_outcome", "Finalize returned %v but model says ok=%v (%d failing references, first: %+v)", err, wantOK, len(failing), first(failing))
@@ -647,7 +654,7 @@ func first(f []asmRef) interface{} {
 func (c06) Exec(sc *sim.Scenario, env *sim.Env) *sim.Violation {
 	sim.Activate(env)
 	defer sim.Deactivate()
-	env.SetWatchdog(uint64(len(sc.Ops)+4) * 20000)
+	env.SetWatchdog(uint64(len(sc.Ops)+4) * 4000000) // generous: only a loop that never ends may trip it
 	r1 := c06run(sc, env, env.Stats, true)
 	if r1.v != nil {
 		return r1.v
